@@ -600,6 +600,10 @@ func (w Walked) DoEmitted(f func(x interface{}) error) error {
 }
 
 func newWalked(siz int) *Walked {
+	if siz < 0 {
+		// A negative limit means no steps, not a negative capacity.
+		siz = 0
+	}
 	max := 1024
 	if max < siz {
 		siz = max
